@@ -71,6 +71,8 @@ Rot(n, d) == Fmts[((n - 1 + d) % 7) + 1]
 CE(ns, mk, da, mi, ci) == [ns |-> ns, mark |-> mk, da |-> da, mi |-> mi, ci |-> ci]
 LE(ns, push, act, da, ai) == [ns |-> ns, push |-> push, act |-> act, da |-> da, ai |-> ai]
 LA(last, store, off) == [last |-> last, store |-> store, off |-> off]
+\* ligature entries shared by the templates: 0 nothing, 1 push -> state 2, 2 push + action 0 -> state 0, 3 stay in 2, 4 DONT_ADVANCE -> 0
+LigEnts == << LE(0, 0, 0, 0, 0), LE(2, 1, 0, 0, 0), LE(0, 1, 1, 0, 0), LE(2, 0, 0, 0, 0), LE(0, 0, 0, 1, 0) >>
 
 NonCtx(cov, flags, lk) == [type |-> 4, cov |-> cov, flags |-> flags, lk |-> lk]
 Ctx(cov, flags, nc, cls, rows, ents, subst) ==
@@ -95,12 +97,12 @@ Entry_(name, prog, alpha, maxlen) == [name |-> name, prog |-> prog, alpha |-> al
 FamNonCtx ==
   [n \in 1 .. 7 |->
      Entry_("nonctx", P1(n, <<NonCtx(0, 1, Sb(Fmts[n], << <<1, 7>>, <<2, 8>>, <<3, 3>>, <<5, 9>> >>))>>),
-            <<1, 2, 3, 4, 5>>, Q(3, 4))]
+            <<1, 2, 3, 4, 5>>, Q(3, 5))]
 FamNonCtxSeq ==
   << Entry_("nonctx-sequence",
             P1(1, <<NonCtx(0, 1, Sb(6, << <<1, 2>> >>)), NonCtx(0, 1, Sb(2, << <<2, 8>>, <<3, 8>> >>)),
                     NonCtx(0, 1, Sb(8, << <<8, 1>> >>))>>),
-            <<1, 2, 3>>, Q(4, 5)) >>
+            <<1, 2, 3>>, Q(4, 6)) >>
 
 (* F2 contextual: B after A is substituted (current-glyph substitution)      *)
 \* columns: EOT OOB DEL EOL A B
@@ -111,7 +113,7 @@ CtxCurrent(cov, flags, cf, sf) ==
       << Sb(sf, << <<2, 9>> >>) >>)
 FamCtxCurrent ==
   [n \in 1 .. 7 |->
-     Entry_("ctx-current", P1(n, <<CtxCurrent(0, 1, Fmts[n], Rot(n, 3))>>), <<1, 2, 5>>, Q(5, 6))]
+     Entry_("ctx-current", P1(n, <<CtxCurrent(0, 1, Fmts[n], Rot(n, 3))>>), <<1, 2, 5>>, Q(5, 7))]
 
 (* SET_MARK on A; B: substitute at the mark; C: substitute at the mark and   *)
 (* the current glyph in one entry                                            *)
@@ -123,10 +125,30 @@ CtxMark(cf, sf, row0) ==
       << Sb(sf, << <<1, 10>> >>), Sb(Rot(sf, 1), << <<1, 11>> >>), Sb(Rot(sf, 2), << <<3, 12>> >>) >>)
 FamCtxMark ==
   [n \in 1 .. 7 |->
-     Entry_("ctx-mark", P1(n, <<CtxMark(Fmts[n], Rot(n, 2), <<0, 0, 0, 0, 1, 0, 0>>)>>), <<1, 2, 3, 5>>, Q(4, 5))]
+     Entry_("ctx-mark", P1(n, <<CtxMark(Fmts[n], Rot(n, 2), <<0, 0, 0, 0, 1, 0, 0>>)>>), <<1, 2, 3, 5>>, Q(4, 6))]
+\* one entry substitutes at the OLD mark and then sets the new one: in A A A every A but the last becomes 10
+FamCtxMarkChain ==
+  << Entry_("ctx-mark-chain",
+            P1(3, << Ctx(0, 1, 5, Cls(6, << <<1, 4>> >>),
+                         << <<0, 0, 0, 0, 1>>, <<0, 0, 0, 0, 1>>, <<0, 0, 2, 0, 1>> >>,
+                         << CE(0, 0, 0, -1, -1), CE(2, 1, 0, 0, -1), CE(2, 0, 0, -1, -1) >>,
+                         << Sb(6, << <<1, 10>> >>) >>) >>),
+            <<1, 5>>, Q(4, 6)) >>
 \* a mark substitution in the start state: before any mark is set (Dev_MarkUnset), and at a mark that persists
 FamCtxMarkPersist ==
-  << Entry_("ctx-mark-persist", P1(2, <<CtxMark(6, 6, <<0, 0, 0, 0, 1, 2, 0>>)>>), <<1, 2, 5>>, Q(5, 6)) >>
+  << Entry_("ctx-mark-persist", P1(2, <<CtxMark(6, 6, <<0, 0, 0, 0, 1, 2, 0>>)>>), <<1, 2, 5>>, Q(5, 7)) >>
+
+\* state 1 (start of line) is not the start state: its row differs from row 0 and must never be used at the start
+FamCtxStart ==
+  << Entry_("ctx-start-state",
+            P1(1, << Ctx(0, 1, 6, Cls(6, << <<1, 4>>, <<2, 5>> >>),
+                         << <<0, 0, 0, 0, 1, 0>>, <<0, 0, 0, 0, 2, 2>>, <<0, 0, 1, 0, 1, 2>> >>,
+                         << CE(0, 0, 0, -1, -1), CE(2, 0, 0, -1, -1), CE(0, 0, 0, -1, 0) >>,
+                         << Sb(6, << <<1, 8>>, <<2, 9>> >>) >>),
+                     Lig(0, 1, 7, Cls(6, << <<1, 4>>, <<2, 5>>, <<3, 6>> >>),
+                         << <<0, 0, 0, 0, 1, 0, 0>>, <<0, 0, 0, 0, 0, 1, 0>>, <<0, 4, 3, 4, 4, 2, 2>> >>,
+                         LigEnts, << LA(0, 0, -2), LA(1, 1, 1) >>, <<0, 1, 0>>, <<16, 17>>) >>),
+            <<1, 2, 3>>, Q(4, 6)) >>
 
 (* final form: the marked A is substituted when the text (or the word) ends  *)
 \* columns: EOT OOB DEL EOL A
@@ -136,8 +158,8 @@ CtxEot(cf, sf) ==
       << CE(0, 0, 0, -1, -1), CE(2, 1, 0, -1, -1), CE(0, 0, 0, 0, -1), CE(2, 0, 0, -1, -1) >>,
       << Sb(sf, << <<1, 13>> >>) >>)
 FamCtxEot ==
-  << Entry_("ctx-end-of-text", P1(1, <<CtxEot(6, 6)>>), <<1, 5>>, Q(5, 6)),
-     Entry_("ctx-end-of-text", P1(2, <<CtxEot(8, 2)>>), <<1, 5>>, Q(5, 6)) >>
+  << Entry_("ctx-end-of-text", P1(1, <<CtxEot(6, 6)>>), <<1, 5>>, Q(5, 7)),
+     Entry_("ctx-end-of-text", P1(2, <<CtxEot(8, 2)>>), <<1, 5>>, Q(5, 7)) >>
 
 (* DONT_ADVANCE chains                                                       *)
 FamCtxDa ==
@@ -147,34 +169,34 @@ FamCtxDa ==
                          << <<0, 0, 0, 0, 1>>, <<0, 0, 0, 0, 1>>, <<0, 0, 0, 0, 2>> >>,
                          << CE(0, 0, 0, -1, -1), CE(2, 0, 1, -1, -1), CE(0, 0, 0, -1, 0) >>,
                          << Sb(6, << <<1, 14>> >>) >>) >>),
-            <<1, 5>>, Q(5, 6)),
+            <<1, 5>>, Q(5, 7)),
      \* two substitutions of the same glyph: A -> 14 (DONT_ADVANCE), then 14 -> 15 by its new class
      Entry_("ctx-da-twice",
             P1(2, << Ctx(0, 1, 6, Cls(6, << <<1, 4>>, <<14, 5>> >>),
                          << <<0, 0, 0, 0, 1, 0>>, <<0, 0, 0, 0, 1, 0>>, <<0, 0, 0, 0, 2, 0>>, <<0, 0, 0, 0, 0, 3>> >>,
                          << CE(0, 0, 0, -1, -1), CE(2, 0, 1, -1, -1), CE(3, 0, 1, -1, 0), CE(0, 0, 0, -1, 1) >>,
                          << Sb(6, << <<1, 14>> >>), Sb(6, << <<14, 15>> >>) >>) >>),
-            <<1, 5>>, Q(4, 5)),
+            <<1, 5>>, Q(4, 6)),
      Entry_("ctx-da-twice",
             P1(3, << Ctx(0, 1, 6, Cls(8, << <<1, 4>>, <<14, 5>> >>),
                          << <<0, 0, 0, 0, 1, 0>>, <<0, 0, 0, 0, 1, 0>>, <<0, 0, 0, 0, 2, 0>>, <<0, 0, 0, 0, 0, 3>> >>,
                          << CE(0, 0, 0, -1, -1), CE(2, 0, 1, -1, -1), CE(3, 0, 1, -1, 0), CE(0, 0, 0, -1, 1) >>,
                          << Sb(0, << <<1, 14>> >>), Sb(0, << <<14, 15>> >>) >>) >>),
-            <<1, 5>>, Q(4, 5)),
+            <<1, 5>>, Q(4, 6)),
      \* SET_MARK + DONT_ADVANCE, then the substitution at the mark hits the current glyph
      Entry_("ctx-da-mark-current",
             P1(4, << Ctx(0, 1, 5, Cls(4, << <<1, 4>> >>),
                          << <<0, 0, 0, 0, 1>>, <<0, 0, 0, 0, 1>>, <<0, 0, 0, 0, 2>> >>,
                          << CE(0, 0, 0, -1, -1), CE(2, 1, 1, -1, -1), CE(0, 0, 0, 0, -1) >>,
                          << Sb(4, << <<1, 16>> >>) >>) >>),
-            <<1, 5>>, Q(4, 5)),
+            <<1, 5>>, Q(4, 6)),
      \* ... and the class of the glyph so changed decides the next entry
      Entry_("ctx-da-mark-reclass",
             P1(5, << Ctx(0, 1, 6, Cls(6, << <<1, 4>>, <<14, 5>> >>),
                          << <<0, 0, 0, 0, 1, 0>>, <<0, 0, 0, 0, 1, 0>>, <<0, 0, 0, 0, 2, 0>>, <<0, 0, 0, 0, 0, 3>> >>,
                          << CE(0, 0, 0, -1, -1), CE(2, 1, 1, -1, -1), CE(3, 0, 1, 0, -1), CE(0, 0, 0, -1, 1) >>,
                          << Sb(6, << <<1, 14>> >>), Sb(6, << <<14, 15>> >>) >>) >>),
-            <<1, 5>>, Q(4, 5)) >>
+            <<1, 5>>, Q(4, 6)) >>
 
 (* the marked glyph is substituted twice: A B -> 10 B, then 10 B C -> 17 B C  *)
 \* columns: EOT OOB DEL EOL A B C
@@ -184,7 +206,7 @@ FamCtxMarkTwice ==
                          << <<0, 0, 0, 0, 1, 0, 0>>, <<0, 0, 0, 0, 1, 0, 0>>, <<0, 0, 0, 0, 1, 2, 0>>, <<0, 0, 0, 0, 1, 0, 3>> >>,
                          << CE(0, 0, 0, -1, -1), CE(2, 1, 0, -1, -1), CE(3, 0, 0, 0, -1), CE(0, 0, 0, 1, -1) >>,
                          << Sb(6, << <<1, 10>> >>), Sb(6, << <<1, 18>>, <<10, 17>> >>) >>) >>),
-            <<1, 2, 3>>, Q(5, 6)) >>
+            <<1, 2, 3>>, Q(5, 7)) >>
 
 (* deletion by substitution with 0xFFFF, then further subtables              *)
 CtxDelete ==
@@ -193,21 +215,20 @@ CtxDelete ==
       << CE(0, 0, 0, -1, -1), CE(2, 0, 0, -1, -1), CE(2, 0, 0, -1, 0) >>,
       << Sb(6, << <<2, DEL>> >>) >>)
 FamCtxDelete ==
-  << Entry_("ctx-delete", P1(1, <<CtxDelete>>), <<1, 2, 5>>, Q(5, 6)),
-     Entry_("ctx-delete-then-nonctx", P1(2, <<CtxDelete, NonCtx(0, 1, Sb(6, << <<1, 7>> >>))>>), <<1, 2, 5>>, Q(4, 5)),
-     Entry_("ctx-delete-then-ctx", P1(3, <<CtxDelete, CtxCurrent(0, 1, 2, 6)>>), <<1, 2, 5>>, Q(5, 6)),
+  << Entry_("ctx-delete", P1(1, <<CtxDelete>>), <<1, 2, 5>>, Q(5, 7)),
+     Entry_("ctx-delete-then-nonctx", P1(2, <<CtxDelete, NonCtx(0, 1, Sb(6, << <<1, 7>> >>))>>), <<1, 2, 5>>, Q(4, 6)),
+     Entry_("ctx-delete-then-ctx", P1(3, <<CtxDelete, CtxCurrent(0, 1, 2, 6)>>), <<1, 2, 5>>, Q(5, 7)),
      Entry_("ctx-delete-then-mark",
             P1(4, << Ctx(0, 1, 6, Cls(6, << <<1, 4>>, <<2, 5>> >>),
                          << <<0, 0, 0, 0, 1, 0>>, <<0, 0, 0, 0, 1, 0>>, <<0, 0, 1, 0, 1, 2>> >>,
                          << CE(0, 0, 0, -1, -1), CE(2, 1, 0, -1, -1), CE(0, 0, 0, 0, -1) >>,
                          << Sb(6, << <<1, DEL>> >>) >>),
                      CtxMark(6, 6, <<0, 0, 0, 0, 1, 2, 0>>) >>),
-            <<1, 2, 5>>, Q(4, 5)) >>
+            <<1, 2, 5>>, Q(4, 6)) >>
 
 (* F3 ligatures.  A B -> 16, A C -> 17.  Failure transitions either as from  *)
 (* the start state without re-dispatch ("std"), or DONT_ADVANCE to state 0.  *)
 \* columns: EOT OOB DEL EOL A B C [X]
-LigEnts == << LE(0, 0, 0, 0, 0), LE(2, 1, 0, 0, 0), LE(0, 1, 1, 0, 0), LE(2, 0, 0, 0, 0), LE(0, 0, 0, 1, 0) >>
 Lig2(cov, flags, cf, da, last) ==
   Lig(cov, flags, 7, Cls(cf, << <<1, 4>>, <<2, 5>>, <<3, 6>> >>),
       << <<0, 0, 0, 0, 1, 0, 0>>, <<0, 0, 0, 0, 1, 0, 0>>,
@@ -216,10 +237,10 @@ Lig2(cov, flags, cf, da, last) ==
 FamLig2 ==
   [n \in 1 .. 14 |->
      Entry_(IF n <= 7 THEN "lig-2" ELSE "lig-2-da",
-            P1(n, <<Lig2(0, 1, Fmts[((n - 1) % 7) + 1], n > 7, 1)>>), <<1, 2, 3, 5>>, Q(4, 5))]
+            P1(n, <<Lig2(0, 1, Fmts[((n - 1) % 7) + 1], n > 7, 1)>>), <<1, 2, 3, 5>>, Q(4, 6))]
 FamLigLong ==
-  << Entry_("lig-2-da", P1(1, <<Lig2(0, 1, 6, TRUE, 1)>>), <<1, 2>>, Q(6, 7)),
-     Entry_("lig-last-without-store", P1(2, <<Lig2(0, 1, 2, TRUE, 0)>>), <<1, 2, 3>>, Q(4, 5)) >>
+  << Entry_("lig-2-da", P1(1, <<Lig2(0, 1, 6, TRUE, 1)>>), <<1, 2>>, Q(6, 8)),
+     Entry_("lig-last-without-store", P1(2, <<Lig2(0, 1, 2, TRUE, 0)>>), <<1, 2, 3>>, Q(4, 6)) >>
 
 \* three components A B C -> 18 (no ligature for A B alone)
 Lig3(da) ==
@@ -253,14 +274,14 @@ LigGap(da) ==
          IF da THEN <<0, 4, 3, 4, 4, 2, 2, 3>> ELSE <<0, 0, 3, 0, 1, 2, 2, 3>> >>,
       LigEnts, << LA(0, 0, -2), LA(1, 1, 1) >>, <<0, 1, 0>>, <<16, 17>>)
 FamLigMore ==
-  << Entry_("lig-3", P1(1, <<Lig3(FALSE)>>), <<1, 2, 3>>, Q(5, 6)),
-     Entry_("lig-3-da", P1(2, <<Lig3(TRUE)>>), <<1, 2, 3, 5>>, Q(5, 6)),
-     Entry_("lig-overlap", P1(3, <<LigOverlap(FALSE)>>), <<1, 2, 3>>, Q(5, 6)),
-     Entry_("lig-overlap-da", P1(4, <<LigOverlap(TRUE)>>), <<1, 2, 3>>, Q(5, 6)),
-     Entry_("lig-nested", P1(5, <<LigNested(FALSE)>>), <<1, 2, 3>>, Q(5, 6)),
-     Entry_("lig-nested-da", P1(6, <<LigNested(TRUE)>>), <<1, 2, 3, 5>>, Q(5, 6)),
-     Entry_("lig-gap", P1(7, <<LigGap(FALSE)>>), <<1, 2, 5>>, Q(5, 6)),
-     Entry_("lig-gap-da", P1(8, <<LigGap(TRUE)>>), <<1, 2, 4, 5>>, Q(5, 6)) >>
+  << Entry_("lig-3", P1(1, <<Lig3(FALSE)>>), <<1, 2, 3>>, Q(5, 7)),
+     Entry_("lig-3-da", P1(2, <<Lig3(TRUE)>>), <<1, 2, 3, 5>>, Q(5, 7)),
+     Entry_("lig-overlap", P1(3, <<LigOverlap(FALSE)>>), <<1, 2, 3>>, Q(5, 7)),
+     Entry_("lig-overlap-da", P1(4, <<LigOverlap(TRUE)>>), <<1, 2, 3>>, Q(5, 7)),
+     Entry_("lig-nested", P1(5, <<LigNested(FALSE)>>), <<1, 2, 3>>, Q(5, 7)),
+     Entry_("lig-nested-da", P1(6, <<LigNested(TRUE)>>), <<1, 2, 3, 5>>, Q(5, 7)),
+     Entry_("lig-gap", P1(7, <<LigGap(FALSE)>>), <<1, 2, 5>>, Q(5, 7)),
+     Entry_("lig-gap-da", P1(8, <<LigGap(TRUE)>>), <<1, 2, 4, 5>>, Q(5, 7)) >>
 
 (* a ligature subtable followed by subtables that meet the deleted glyphs     *)
 \* after the ligature 16: C directly behind it becomes 12; the deleted glyph resets the context
@@ -270,10 +291,12 @@ CtxAfterLig ==
       << CE(0, 0, 0, -1, -1), CE(2, 0, 0, -1, -1), CE(0, 0, 0, -1, 0) >>,
       << Sb(6, << <<3, 12>> >>) >>)
 FamLigThen ==
-  << Entry_("lig-then-ctx", P1(1, <<Lig2(0, 1, 6, TRUE, 1), CtxAfterLig>>), <<1, 2, 3>>, Q(5, 6)),
+  << Entry_("lig-then-ctx", P1(1, <<Lig2(0, 1, 6, TRUE, 1), CtxAfterLig>>), <<1, 2, 3>>, Q(5, 7)),
      Entry_("lig-then-nonctx", P1(2, <<Lig2(0, 1, 8, TRUE, 1), NonCtx(0, 1, Sb(2, << <<3, 21>>, <<16, 20>>, <<17, 20>> >>))>>),
-            <<1, 2, 3>>, Q(4, 5)),
-     Entry_("lig-then-lig", P1(3, <<Lig2(0, 1, 6, TRUE, 1), LigNested(TRUE)>>), <<1, 2, 3>>, Q(5, 6)) >>
+            <<1, 2, 3>>, Q(4, 6)),
+     \* the ligature machine passes over the deleted glyph (class 2): A B C -> A DEL C -> 17
+     Entry_("ctx-delete-then-lig", P1(5, <<CtxDelete, Lig2(0, 1, 6, TRUE, 1)>>), <<1, 2, 3>>, Q(4, 6)),
+     Entry_("lig-then-lig", P1(3, <<Lig2(0, 1, 6, TRUE, 1), LigNested(TRUE)>>), <<1, 2, 3>>, Q(5, 7)) >>
 
 (* F4 chains: sub-feature flags from the default flags and the feature entries *)
 FeatEntries ==
@@ -282,7 +305,8 @@ FeatEntries ==
      [t |-> 21, s |-> 1, en |-> 4, dis |-> 65527],       \* lining numbers: enables 4, disables 8
      [t |-> 21, s |-> 0, en |-> 8, dis |-> 65531],       \* old style numbers: enables 8, disables 4
      [t |-> 99, s |-> 1, en |-> 16, dis |-> 65535],      \* a feature allsorts does not map
-     [t |-> 11, s |-> 0, en |-> 32, dis |-> 65534] >>    \* no fractions (~frac /\ ~afrc): enables 32, disables 1
+     [t |-> 11, s |-> 0, en |-> 32, dis |-> 65534],      \* no fractions (~frac /\ ~afrc): enables 32, disables 1
+     [t |-> 1, s |-> 2, en |-> 64, dis |-> 65471] >>     \* liga again: the disable mask clears the bit it enables (disable first!)
 FeatSubs ==
   << NonCtx(0, 1, Sb(6, << <<1, 7>> >>)), NonCtx(0, 2, Sb(6, << <<2, 8>> >>)), NonCtx(0, 4, Sb(6, << <<3, 9>> >>)),
      NonCtx(0, 8, Sb(6, << <<3, 10>> >>)), NonCtx(0, 16, Sb(6, << <<4, 11>> >>)), NonCtx(0, 32, Sb(6, << <<4, 12>> >>)),
@@ -299,26 +323,26 @@ FamFeatures ==
                  << [def |-> def, sh |-> sh, feats |-> FeatEntries, subs |-> FeatSubs],
                     [def |-> 1, sh |-> 0, feats |-> << [t |-> 1, s |-> 2, en |-> 0, dis |-> 0] >>,
                      subs |-> << NonCtx(0, 1, Sb(2, << <<7, 15>>, <<8, 15>> >>)) >>] >>),
-            <<1, 2, 3, 4>>, Q(3, 4))]
+            <<1, 2, 3, 4>>, Q(3, 5))]
 \* subtable types allsorts does not implement stand between implemented ones
 FamTypes ==
   << Entry_("types-0-5",
             P1(1, << Other(0, 0, 1), NonCtx(0, 1, Sb(6, << <<1, 7>> >>)), Other(5, 0, 1), CtxCurrent(0, 1, 6, 6), Other(0, 4, 1) >>),
-            <<1, 2, 7>>, Q(4, 5)) >>
+            <<1, 2, 7>>, Q(4, 6)) >>
 
 (* F5 coverage flags: 8 vertical only, 4 descending, 2 both directions, 1 logical *)
 FamCoverage ==
-  << Entry_("coverage-vertical-only", P1(1, <<NonCtx(8, 1, Sb(6, << <<1, 7>> >>)), NonCtx(0, 1, Sb(6, << <<2, 8>> >>))>>), <<1, 2>>, Q(3, 4)),
-     Entry_("coverage-both", P1(2, <<NonCtx(10, 1, Sb(6, << <<1, 7>> >>)), NonCtx(2, 1, Sb(6, << <<2, 8>> >>))>>), <<1, 2>>, Q(3, 4)),
-     Entry_("coverage-logical", P1(3, <<CtxCurrent(1, 1, 6, 6)>>), <<1, 2, 5>>, Q(4, 5)),
-     Entry_("coverage-descending-nonctx", P1(4, <<NonCtx(4, 1, Sb(6, << <<1, 7>> >>))>>), <<1, 2>>, Q(3, 4)),
-     Entry_("coverage-descending-ctx", P1(5, <<CtxCurrent(4, 1, 6, 6)>>), <<1, 2, 5>>, Q(4, 5)),
-     Entry_("coverage-descending-logical-ctx", P1(6, <<CtxCurrent(5, 1, 2, 2)>>), <<1, 2, 5>>, Q(4, 5)),
-     Entry_("coverage-descending-lig", P1(7, <<Lig2(4, 1, 6, TRUE, 1)>>), <<1, 2, 3>>, Q(4, 5)),
-     Entry_("coverage-vertical-only-ctx", P1(8, <<CtxCurrent(8, 1, 6, 6), Lig2(9, 1, 6, TRUE, 1)>>), <<1, 2>>, Q(4, 5)) >>
+  << Entry_("coverage-vertical-only", P1(1, <<NonCtx(8, 1, Sb(6, << <<1, 7>> >>)), NonCtx(0, 1, Sb(6, << <<2, 8>> >>))>>), <<1, 2>>, Q(3, 5)),
+     Entry_("coverage-both", P1(2, <<NonCtx(10, 1, Sb(6, << <<1, 7>> >>)), NonCtx(2, 1, Sb(6, << <<2, 8>> >>))>>), <<1, 2>>, Q(3, 5)),
+     Entry_("coverage-logical", P1(3, <<CtxCurrent(1, 1, 6, 6)>>), <<1, 2, 5>>, Q(4, 6)),
+     Entry_("coverage-descending-nonctx", P1(4, <<NonCtx(4, 1, Sb(6, << <<1, 7>> >>))>>), <<1, 2>>, Q(3, 5)),
+     Entry_("coverage-descending-ctx", P1(5, <<CtxCurrent(4, 1, 6, 6)>>), <<1, 2, 5>>, Q(4, 6)),
+     Entry_("coverage-descending-logical-ctx", P1(6, <<CtxCurrent(5, 1, 2, 2)>>), <<1, 2, 5>>, Q(4, 6)),
+     Entry_("coverage-descending-lig", P1(7, <<Lig2(4, 1, 6, TRUE, 1)>>), <<1, 2, 3>>, Q(4, 6)),
+     Entry_("coverage-vertical-only-ctx", P1(8, <<CtxCurrent(8, 1, 6, 6), Lig2(9, 1, 6, TRUE, 1)>>), <<1, 2>>, Q(4, 6)) >>
 
 Programs ==
-  FamNonCtx \o FamNonCtxSeq \o FamCtxCurrent \o FamCtxMark \o FamCtxMarkPersist \o FamCtxEot \o FamCtxDa
+  FamNonCtx \o FamNonCtxSeq \o FamCtxCurrent \o FamCtxMark \o FamCtxMarkChain \o FamCtxMarkPersist \o FamCtxStart \o FamCtxEot \o FamCtxDa
   \o FamCtxMarkTwice \o FamCtxDelete \o FamLig2 \o FamLigLong \o FamLigMore \o FamLigThen \o FamFeatures
   \o FamTypes \o FamCoverage
 
